@@ -157,10 +157,13 @@ def summarize(F, inst, max_paths=400, ts=False):
     T.pvals = {}
     lname = {}
     used = {}
+    cnt = {}
     for l in sorted(multi):
         nm_ = inst["locals"][l].get("name") or "_%d" % l
         if nm_ in used:
-            nm_ = "%s_%d" % (nm_, l)
+            # a second loop-carried local of the same source name: numbered by order of declaration (not by its MIR index, which moves with unrelated edits)
+            cnt[nm_] = cnt.get(nm_, 1) + 1
+            nm_ = "%s__%d" % (nm_, cnt[nm_])
         used[nm_] = l
         lname[l] = nm_
     segments = []
@@ -168,12 +171,31 @@ def summarize(F, inst, max_paths=400, ts=False):
     paths = []
     notes = []
 
-    def atom_id(kind, a, b2):
-        key = (kind if kind not in ("lt", "le") else "lt", a, b2)
+    atom_int = []       # per atom: both operands are integers (strictness then matters: `x <= k` is `x < k + 1`)
+
+    def op_is_int(op):
+        ty = None
+        if op.get("k") == "const":
+            ty = op.get("ty")
+        elif not op.get("p"):
+            ty = inst["locals"][op["l"]]["ty"]
+        for _ in range(3):
+            if ty is None:
+                return False
+            t_ = F.types[ty]
+            if t_["k"] == "ref":
+                ty = t_["to"]
+                continue
+            return t_["k"] == "int"
+        return False
+
+    def atom_id(kind, a, b2, ints=False):
+        key = (kind if (kind not in ("lt", "le") or ints) else "lt", a, b2)
         for i, (k0, a0, b0, strict) in enumerate(atoms):
-            if (k0 if k0 not in ("lt", "le") else "lt", a0, b0) == key:
+            if (k0 if (k0 not in ("lt", "le") or atom_int[i]) else "lt", a0, b0) == key and atom_int[i] == ints:
                 return i
         atoms.append((kind, a, b2, kind == "lt"))
+        atom_int.append(ints)
         return len(atoms) - 1
 
     def ret_term(path_blocks):
@@ -188,6 +210,8 @@ def summarize(F, inst, max_paths=400, ts=False):
                     elif rv["k"] == "aggregate":
                         kind_ = "adt:" + str(rv.get("path", "?")).rsplit("::", 1)[-1] if rv.get("agg") == "adt" else rv.get("agg")
                         last = ("agg", kind_, rv.get("variant_name") if rv.get("agg") == "adt" else rv.get("key")) + tuple(T.of_operand(o) for o in rv.get("ops", []))
+                    elif rv["k"] == "cast":
+                        last = T.of_operand(rv["op"])           # numeric casts are transparent in the terms
                     elif rv["k"] == "binop":
                         from symterm import BIN
                         last = (BIN.get(rv["op"], rv["op"]), T.of_operand(rv["a"]), T.of_operand(rv["b"]))
@@ -292,7 +316,7 @@ def summarize(F, inst, max_paths=400, ts=False):
                         a, b2 = T.of_operand(d[3]["args"][0]), T.of_operand(d[3]["args"][1])
                         if swap:
                             a, b2 = b2, a
-                        lit = ("cmp", atom_id(kind, a, b2))
+                        lit = ("cmp", atom_id(kind, a, b2, op_is_int(d[3]["args"][0]) and op_is_int(d[3]["args"][1])))
                     elif m in ("eq", "ne") and trn.startswith("core::cmp::Partial") and len(d[3]["args"]) == 2:
                         a, b2 = T.of_operand(d[3]["args"][0]), T.of_operand(d[3]["args"][1])
                         lit = ("eq" if m == "eq" else "ne", atom_id("eq", a, b2))
@@ -305,7 +329,7 @@ def summarize(F, inst, max_paths=400, ts=False):
                         a, b2 = T.of_operand(rv["a"]), T.of_operand(rv["b"])
                         if swap:
                             a, b2 = b2, a
-                        lit = ("cmp", atom_id(kind, a, b2))
+                        lit = ("cmp", atom_id(kind, a, b2, op_is_int(rv["a"]) and op_is_int(rv["b"])))
                     elif rv["k"] == "binop" and rv["op"] in ("Eq", "Ne"):
                         lit = ("eq" if rv["op"] == "Eq" else "ne", atom_id("eq", T.of_operand(rv["a"]), T.of_operand(rv["b"])))
                     elif rv["k"] == "discriminant":
@@ -380,7 +404,7 @@ def summarize(F, inst, max_paths=400, ts=False):
     T.pvals = None
     if len(paths) >= max_paths:
         notes.append("path limit reached")
-    return {"atoms": atoms, "paths": paths, "terms": T, "loop": bool(headers), "notes": notes, "cuts": [0] + sorted(headers), "names": lname}
+    return {"atoms": atoms, "atom_int": atom_int, "paths": paths, "terms": T, "loop": bool(headers), "notes": notes, "cuts": [0] + sorted(headers), "names": lname}
 
 
 def describe(summary):
